@@ -547,22 +547,29 @@ func modelFrexp(f *Frame, st *State, cc *ssa.CallCommon, args []Val, rt types.Ty
 	e := f.e
 	x := args[0].S
 	tup := rt.(*types.Tuple)
-	frac := e.freshConst("frac", fp64)
-	exp := e.havocVal(tup.At(1).Type(), "exp", st)
+	// deterministic: frac and exp are functions of the argument
+	expSort := e.sortOf(tup.At(1).Type())
+	e.sc.Decl("fun:frexp", fmt.Sprintf("(declare-fun lib.math.FrexpFrac (%s) %s)\n(declare-fun lib.math.FrexpExp (%s) %s)", fp64, fp64, fp64, expSort))
+	frac := fmt.Sprintf("(lib.math.FrexpFrac %s)", x)
+	expT := fmt.Sprintf("(lib.math.FrexpExp %s)", x)
 	special := fmt.Sprintf("(or (fp.isZero %s) (fp.isInfinite %s) (fp.isNaN %s))", x, x, x)
 	zero := e.intLit(types.Typ[types.Int], "0")
 	half := fpLit(0.5, false)
 	one := fpLit(1, false)
-	var bounds string
+	var bounds, scaled string
 	if e.mode == "bv" {
-		bounds = fmt.Sprintf("(and (bvsge %s %s) (bvsle %s %s))", exp.S, bvLit("-1073", 64), exp.S, bvLit("1024", 64))
+		bounds = fmt.Sprintf("(and (bvsge %s %s) (bvsle %s %s))", expT, bvLit("-1073", 64), expT, bvLit("1024", 64))
+		// frac * 2^exp == x, stated on the IEEE fields for normal numbers: the biased exponent of x is exp + 1022 and the
+		// significand of frac equals the significand of x
+		scaled = fmt.Sprintf("(=> (fp.isNormal %s) (and (= ((_ extract 62 52) (lib.math.bits %s)) ((_ extract 10 0) (bvadd %s (_ bv1022 64)))) (= ((_ extract 51 0) (lib.math.bits %s)) ((_ extract 51 0) (lib.math.bits %s))) (= ((_ extract 62 52) (lib.math.bits %s)) #b01111111110)))", x, x, expT, x, frac, frac)
+		e.sc.Decl("fun:mathbits", fmt.Sprintf("(declare-fun lib.math.bits (%s) (_ BitVec 64))\n(assert (forall ((f %s)) (! (=> (not (fp.isNaN f)) (= ((_ to_fp 11 53) (lib.math.bits f)) f)) :pattern ((lib.math.bits f)))))", fp64, fp64))
 	} else {
-		bounds = fmt.Sprintf("(and (>= %s (- 1073)) (<= %s 1024))", exp.S, exp.S)
+		bounds = fmt.Sprintf("(and (>= %s (- 1073)) (<= %s 1024))", expT, expT)
+		scaled = "true"
 	}
-	e.assume("true", fmt.Sprintf("(ite %s (and (= %s %s) (= %s %s)) (and (fp.leq %s (fp.abs %s)) (fp.lt (fp.abs %s) %s) (= (fp.isNegative %s) (fp.isNegative %s)) %s))",
-		special, frac, x, exp.S, zero, half, frac, frac, one, frac, x, bounds))
-	e.frexp = append(e.frexp, [3]string{x, frac, exp.S})
-	return Val{T: rt, Tuple: []Val{{T: tup.At(0).Type(), S: frac}, exp}}
+	e.assume("true", fmt.Sprintf("(ite %s (and (= %s %s) (= %s %s)) (and (fp.leq %s (fp.abs %s)) (fp.lt (fp.abs %s) %s) (= (fp.isNegative %s) (fp.isNegative %s)) %s %s))",
+		special, frac, x, expT, zero, half, frac, frac, one, frac, x, bounds, scaled))
+	return Val{T: rt, Tuple: []Val{{T: tup.At(0).Type(), S: e.nameConst("frac", fp64, frac)}, {T: tup.At(1).Type(), S: e.nameConst("fexp", expSort, expT)}}}
 }
 
 // sort.SearchFloat64s(a, x): "returns the index to insert x if x is not present (it could be len(a)). The slice must be sorted in ascending order":
